@@ -47,13 +47,16 @@ func NewProcessor(queue chan Operator, buffer int, threads int) (p *Processor) {
 
 	for i := 0; i < threads; i++ {
 		p.wg.Add(1)
+		id := i
 		go func() {
+			verifStep("worker.start", id)
 			<-p.work
 			defer func() {
 				if err := recover(); err != nil {
 					p.out <- Result{nil, fmt.Errorf("concurrent: processor panic: %v", err)}
 				}
 				p.work <- struct{}{}
+				verifStep("worker.token_returned", id)
 				if len(p.work) == p.threads {
 					close(p.out)
 				}
@@ -62,6 +65,7 @@ func NewProcessor(queue chan Operator, buffer int, threads int) (p *Processor) {
 
 			for input := range p.in {
 				v, e := input.Operation()
+				verifStep("worker.result", id)
 				if p.out != nil {
 					p.out <- Result{v, e}
 				}
